@@ -406,3 +406,40 @@ func verifStubHash(d Diff, desired config.Pipeline) string {
 	sb.WriteString("|" + pRender(desired))
 	return sb.String()
 }
+
+// pRenderPlan is the canonical text of what a plan shows the operator: every
+// field of every change, in order.
+func pRenderPlan(d Diff) string {
+	var sb strings.Builder
+	sb.WriteString(d.PipelineID + "|")
+	for _, c := range d.Changes {
+		sb.WriteString(string(c.Resource) + ":" + c.ID + ":" + string(c.Action) + ":" + string(c.Effect) + ":" + strings.Join(c.ConfigPaths, ",") + ":" + strconv.FormatBool(c.LiveSwappable) + ":" + c.Code + ";")
+	}
+	return sb.String()
+}
+
+// verifStubMarshal replaces goccy/go-json Marshal (reflection) inside the real
+// Diff.computeHash by an injective structural rendering of the same value:
+// what computeHash feeds the digest is still decided by the code under test.
+func verifStubMarshal(v any) ([]byte, error) { return []byte(verifDeepRender(v)), nil }
+
+var verifDigests []string
+
+// verifStubSum256 replaces sha256.Sum256 by an interning table: equal inputs
+// get equal digests, different inputs different ones (collision-free model).
+func verifStubSum256(b []byte) [32]byte {
+	s := string(b)
+	idx := -1
+	for k, x := range verifDigests {
+		if x == s {
+			idx = k
+		}
+	}
+	if idx < 0 {
+		verifDigests = append(verifDigests, s)
+		idx = len(verifDigests) - 1
+	}
+	var out [32]byte
+	out[0], out[1] = byte(idx), byte(idx>>8)
+	return out
+}
